@@ -40,8 +40,13 @@ def dspec(rng, nd=None, regime=None, dims=None, dtype='f', minsize=1):
         nd = rng.randint(0, 4) if nd is None else nd
         dims = rng.sample(gen.DIMS, nd)
     nd = len(dims)
-    regime = regime or rng.choice(['distinct', 'equal'])
-    if regime == 'distinct':
+    regime = regime or rng.choice(['distinct', 'equal', 'equal', 'distinct', 'ones'])
+    if regime == 'ones':
+        # several size-1 dimensions next to longer ones (squeeze / reshape / broadcast treat singletons specially)
+        sizes = [1 if rng.random() < 0.5 else rng.randint(max(2, minsize), 3) for _ in range(nd)]
+        if minsize > 1:
+            sizes = [max(s, minsize) for s in sizes]
+    elif regime == 'distinct':
         sizes = rng.sample([1, 2, 3, 4, 5], nd) if minsize == 1 else rng.sample([2, 3, 4, 5], nd)
     else:
         n = rng.randint(max(2, minsize), 3)
